@@ -27,6 +27,9 @@ def bases():
     out = {}
     for b in ("E1", "E3", "E5"):
         out["edif:" + b] = (".edf", edif_writer.render(fdesigns.BASES[b]()))
+    e8 = fdesigns.BASES["E4"]()
+    e8["libs"][2]["defs"][0]["insts"].append({"name": "u_inv2", "ref": ["gates", "INV"]})
+    out["edif:E8"] = (".edf", edif_writer.render(e8))
     out["verilog:base"] = (".v", vw.render(c06.base_vad()))
     out["verilog:chain"] = (".v", vw.render(c06.chain_vad(3), order=[2, 0, 1]))
     for b in ("B1", "B2"):
@@ -159,7 +162,124 @@ def structure(path):
     return (sorted(out, key=repr), n.top_instance.reference.name if n.top_instance is not None and n.top_instance.reference is not None else None)
 
 
+def graph_text(fmt, bodies, order):
+    """three modules a, b, c; bodies[k] = tuple of module names instanced by module k (cycles allowed)."""
+    names = "abc"
+    out = []
+    for k in order:
+        m = names[k]
+        if fmt == "verilog":
+            lines = ["module %s(x);" % m, " input x;"]
+            for j, t in enumerate(bodies[k]):
+                lines.append(" %s i%d(.x(x));" % (t, j))
+            lines.append("endmodule")
+        else:
+            lines = [".model %s" % m, ".inputs x", ".outputs"]
+            for j, t in enumerate(bodies[k]):
+                lines.append(".subckt %s x=x" % t)
+                lines.append(".cname i%d" % j)
+            lines.append(".end")
+        out.append("\n".join(lines))
+    return "\n\n".join(out) + "\n"
+
+
+def graph_worker(case):
+    """every instantiation graph over three modules (<= 2 instances each, cycles and self-loops included) in every
+    declaration order: the reader must terminate - return something well-formed or raise - and leave no residue."""
+    _, fmt, bodies, order = case
+    core.reset_world()
+    s = core.sdn()
+    ext = ".v" if fmt == "verilog" else ".eblif"
+    path = os.path.join(core.scratch_dir(), "c15g_%d%s" % (os.getpid(), ext))
+    with open(path, "w") as f:
+        f.write(graph_text(fmt, bodies, order))
+    before = core.mutable_globals_snapshot()
+    outcome, n = guarded_parse(path)
+    probs = []
+    cyc = "cyclic" if _cyclic(bodies) else "acyclic"
+    tag = "%s:hierarchy-graph:%s" % (fmt, cyc)
+    if outcome == "hang":
+        probs.append(("reader-hangs:" + tag, "bodies %r order %r" % (bodies, order)))
+    elif outcome == "ok" and n is not None:
+        bad = wf.wf_netlist(n, require_references=True)
+        if bad:
+            probs.append(("half-built-netlist-returned:%s:%s" % (bad[0][0], tag), "bodies %r order %r: %s" % (bodies, order, bad[0][1])))
+    elif outcome.startswith("raised") and cyc == "acyclic":
+        probs.append(("reader-rejected-valid-source:%s:%s" % (outcome, tag), "bodies %r order %r" % (bodies, order)))
+    if core.mutable_globals_snapshot() != before:
+        probs.append(("process-residue:" + tag, "bodies %r" % (bodies,)))
+    return {"key": core.digest(case), "nontrivial": cyc == "cyclic", "outcome": outcome.split(":")[0], "problems": probs, "transitions": 1}
+
+
+def _cyclic(bodies):
+    names = "abc"
+    seen = {}
+
+    def dfs(k, stack):
+        if k in stack:
+            return True
+        return any(dfs(names.index(t), stack | {k}) for t in bodies[k])
+
+    return any(dfs(k, frozenset()) for k in range(3))
+
+
+def file_fault_worker(case):
+    """the input cannot even be opened or is not what its name says: must raise, no residue."""
+    _, what, policy = case
+    core.reset_world()
+    s = core.sdn()
+    s.namespace_manager.default = policy
+    d = core.scratch_dir()
+    import zipfile
+    paths = {
+        "missing.edf": os.path.join(d, "no_such_file_%d.edf" % os.getpid()),
+        "missing.v": os.path.join(d, "no_such_file_%d.v" % os.getpid()),
+        "missing.eblif": os.path.join(d, "no_such_file_%d.eblif" % os.getpid()),
+        "directory.edf": os.path.join(d, "dir_%d.edf" % os.getpid()),
+        "directory.v": os.path.join(d, "dir_%d.v" % os.getpid()),
+        "empty.edf": os.path.join(d, "empty_%d.edf" % os.getpid()),
+        "empty.v": os.path.join(d, "empty_%d.v" % os.getpid()),
+        "empty.eblif": os.path.join(d, "empty_%d.eblif" % os.getpid()),
+        "zip-without-member.edf": os.path.join(d, "nomember_%d.edf" % os.getpid()),
+        "zip-without-member.v": os.path.join(d, "nomember_%d.v" % os.getpid()),
+        "unknown-extension": os.path.join(d, "x_%d.xyz" % os.getpid()),
+    }
+    path = paths[what]
+    if what.startswith("directory"):
+        os.makedirs(path, exist_ok=True)
+    elif what.startswith("empty") or what == "unknown-extension":
+        open(path, "w").close()
+    elif what.startswith("zip"):
+        with zipfile.ZipFile(path, "w") as z:
+            z.writestr("something_else.txt", "hello")
+    ref_probe = probe()
+    before = core.mutable_globals_snapshot()
+    outcome, n = guarded_parse(path)
+    probs = []
+    tag = "file-fault:%s%s" % (what, "" if policy == "DEFAULT" else ":under-" + policy)
+    if outcome == "hang":
+        probs.append(("reader-hangs:" + tag, what))
+    if outcome == "ok" and n is not None and not what.startswith("empty"):
+        probs.append(("unreadable-input-accepted:" + tag, what))
+    after = core.mutable_globals_snapshot()
+    if after != before:
+        diff = sorted(k for k in set(before) | set(after) if before.get(k) != after.get(k))
+        probs.append(("process-residue-after-rejection:%s:%s" % (diff[0].split(":")[-1], tag), "%s: %s -> %s" % (diff[0], before.get(diff[0]), after.get(diff[0]))))
+        if probe() != ref_probe:
+            probs.append(("later-behaviour-differs:" + tag, "probe script differs from a fresh process"))
+    if what.startswith("directory"):
+        try:
+            os.rmdir(path)
+        except OSError:
+            pass
+    return {"key": core.digest(case), "nontrivial": outcome.startswith("raised"), "outcome": outcome.split(":")[0], "problems": probs, "transitions": 1}
+
+
 def worker(case):
+    if case[0] == "graph":
+        return graph_worker(case)
+    if case[0] == "file-fault":
+        return file_fault_worker(case)
     fmt, which, kind, lo, hi, repl = case[:6]
     policy = case[6] if len(case) > 6 else "DEFAULT"
     core.reset_world()
@@ -206,6 +326,16 @@ def worker(case):
             if fmt == "edif" and kind == "replace" and repl == "zz_undeclared" and i > 0 and \
                     tokens[i - 1].lower() in ("cellref", "libraryref", "portref", "instanceref", "viewref", "member"):
                 probs.append(("dangling-reference-accepted:%s:%s" % (tokens[i - 1].lower(), tag), "token %d" % i))
+            if fmt == "edif" and kind == "replace" and isinstance(case[5], str) and case[5].startswith("@decl"):
+                # a reference re-targeted to another *declared* name: accepted by the reader although an independent
+                # reading of the same text finds the reference dangling?
+                from vlib import sexpr
+                try:
+                    sexpr.interpret(sexpr.parse(body))
+                except KeyError as ex:
+                    probs.append(("dangling-reference-accepted:retargeted:" + tag, "token %d (%r -> %r): independent reading fails to resolve %s" % (i, tokens[i], repl, ex)))
+                except Exception:
+                    pass
             if fmt == "edif" and kind == "replace" and repl == "pageSize" and tokens[i - 1] == "(" and tokens[i].lower() in (
                     "port", "instance", "net", "cell", "library", "view", "interface", "contents", "joined", "portref"):
                 probs.append(("unsupported-construct-accepted:" + tag, "(%s ...) replaced by (pageSize ...) at token %d" % (tokens[i], i)))
@@ -253,9 +383,19 @@ def cases(tier):
     # the unfaulted files themselves (successful parses restore the policy they switched)
     for which in bases():
         out.append((which.split(":")[0], which, "truncate", 10 ** 6, 10 ** 6 + 1, None))
+    import itertools
+    options = [()] + [(x,) for x in "abc"] + [tuple(p) for p in itertools.combinations_with_replacement("abc", 2)]
+    for fmt in ("verilog", "eblif"):
+        for bodies in itertools.product(options, repeat=3):
+            for order in (itertools.permutations(range(3)) if tier == "thorough" else [(0, 1, 2), (2, 1, 0), (1, 2, 0)]):
+                out.append(("graph", fmt, list(bodies), list(order)))
+    for what in ("missing.edf", "missing.v", "missing.eblif", "directory.edf", "directory.v", "empty.edf", "empty.v",
+                 "empty.eblif", "zip-without-member.edf", "zip-without-member.v", "unknown-extension"):
+        for policy in ("DEFAULT", "EDIF"):
+            out.append(("file-fault", what, policy))
     # the same faults with the EDIF policy in force before the call (the Verilog reader switches to DEFAULT)
     for c in list(out):
-        if c[0] in ("verilog", "eblif") and (tier == "thorough" or c[2] in ("truncate", "delete")):
+        if c[0] in ("verilog", "eblif") and len(c) == 6 and (tier == "thorough" or c[2] in ("truncate", "delete")):
             out.append(c + ("EDIF",))
     return out
 
